@@ -83,7 +83,11 @@ Definition optz_eqb := opt_eqb Z.eqb.
 Definition d_inv_eqb (a b : d_inv) : bool :=
   path_eqb (di_path a) (di_path b) && same_set Nat.eqb (di_qops a) (di_qops b)
   && same_set N.eqb (di_qchildren a) (di_qchildren b) && same_set N.eqb (di_ichildren a) (di_ichildren b)
-  && same_set N.eqb (di_children a) (di_children b) && (di_first a =? di_first b)
+  && same_set N.eqb (di_children a) (di_children b)
+  (* firstQueuedOperationPriority is a cached value that is only refreshed (and
+     only read) while the invocation is queued; for an idle invocation its
+     stale content depends on Go's map iteration order *)
+  && ((di_first a =? di_first b) || (Nat.eqb (List.length (di_qops a)) 0 && Nat.eqb (List.length (di_qchildren a)) 0))
   && same_set (fun x y => nn_eqb (fst x) (fst y) && Nat.eqb (snd x) (snd y)) (di_exec a) (di_exec b)
   && (di_started a =? di_started b) && (di_completed a =? di_completed b) && (di_idle a =? di_idle b)%N
   && list_eqb nn_eqb (di_isync a) (di_isync b).
